@@ -301,15 +301,19 @@ fn adj_min_always(hours: &HashMap<Prayer, RefCell<Result<PrayerHour, ()>>>) {
     use Prayer::*;
 
     // Do nothing because this is implemented through fajr and isha intervals.
-    *hours[&Fajr].borrow_mut() = hours[&Shurooq].borrow().map(|mut x| {
-        x.extreme = true;
-        x
-    });
+    if hours[&Shurooq].borrow().is_ok() {
+        *hours[&Fajr].borrow_mut() = hours[&Shurooq].borrow().map(|mut x| {
+            x.extreme = true;
+            x
+        });
+    }
 
-    *hours[&Isha].borrow_mut() = hours[&Maghrib].borrow().map(|mut x| {
-        x.extreme = true;
-        x
-    });
+    if hours[&Maghrib].borrow().is_ok() {
+        *hours[&Isha].borrow_mut() = hours[&Maghrib].borrow().map(|mut x| {
+            x.extreme = true;
+            x
+        });
+    }
 }
 
 fn adj_min_inv(params: &Params, hours: &HashMap<Prayer, RefCell<Result<PrayerHour, ()>>>) {
